@@ -48,7 +48,18 @@ def print_both(ts):
     module = ir.Module(functions_for(ts))
     ctext = ir_to_c(module)
     lltext = str(ir_to_llvm(module))
-    return cfront.parse_functions(ctext), llfront.parse_module(lltext), ctext
+    return cfront.parse_functions(ctext), llfront.parse_module(lltext), lltext
+
+
+def llvm_verifier_rejects(lltext):
+    """The real LLVM verifier on the emitted text: None, or its message."""
+    import llvmlite.binding as llvm
+
+    try:
+        llvm.parse_assembly(lltext).verify()
+    except Exception as e:  # noqa: BLE001
+        return str(e)[:300] or "rejected"
+    return None
 
 
 def has_right_nested(t) -> bool:
@@ -131,6 +142,9 @@ def compare_tree(k, t, cfuncs, llfuncs, envs, solver, stats):
             tb, vb, sb, ab = _backend_meaning(backend, k, cfuncs, llfuncs, env_r)
         except HarnessError as e:
             out.append({"kind": "harness", "backend": backend, "why": str(e)})
+            continue
+        except backmean.Malformed as e:
+            out.append({"kind": "llvm-malformed", "backend": backend, "why": str(e)})
             continue
         claim = _claim(tI, vI, sI, aI, tb, vb, sb, ab)
         if claim is None:
@@ -280,19 +294,31 @@ def _tree_worker(args):
         if not batch:
             return
         try:
-            cf, lf, _ = print_both(batch)
+            cf, lf, lltext = print_both(batch)
+            bad_module = llvm_verifier_rejects(lltext)
         except Exception as e:  # noqa: BLE001 - a tree one of the printers refuses is not well-typed for C06
+            bad_module = "printer"
+            del e
+        if bad_module is not None:
             # fall back to one-by-one to isolate
             for t in batch:
                 try:
-                    cf1, lf1, _ = print_both([t])
+                    cf1, lf1, ll1 = print_both([t])
                 except Exception:  # noqa: BLE001
                     stats["rejected_by_backend"] += 1
                     continue
+                why = llvm_verifier_rejects(ll1)
+                if why is not None:
+                    # printed by both back ends, but the LLVM verifier rejects the module
+                    stats["trees"] += 1
+                    stats["by_kind"]["llvm-malformed"] = stats["by_kind"].get("llvm-malformed", 0) + 1
+                    if stats["by_kind"]["llvm-malformed"] <= 4:
+                        findings.append({"kind": "llvm-malformed", "backend": "llvm", "why": why, "tree": repr(t)})
+                    continue
                 _handle(0, t, cf1, lf1)
             batch.clear()
-            del e
             return
+        stats["modules_verified"] = stats.get("modules_verified", 0) + 1
         for k, t in enumerate(batch):
             _handle(k, t, cf, lf)
         batch.clear()
@@ -603,6 +629,16 @@ def rounding_envs():
 def confirm_tree_finding(f):
     """Run the real back ends on the counterexample; bitwise different results confirm it."""
     t = eval(f["tree"], {k: getattr(ir, k) for k in dir(ir) if not k.startswith("_")})  # repr of our own tree
+    if f["kind"] == "llvm-malformed":
+        # replay = the real LLVM verifier on the real module
+        import llvmlite.binding as llvm
+        from tensora.codegen import ir_to_llvm
+
+        try:
+            llvm.parse_assembly(str(ir_to_llvm(ir.Module(functions_for([t]))))).verify()
+        except Exception as e:  # noqa: BLE001
+            return {"confirmed": True, "llvm_verifier": str(e)[:300]}
+        return {"confirmed": False, "note": "the LLVM verifier accepts the module"}
     envs = [env_from_model(f["env"])] if f.get("env") else []
     if f["kind"] == "float-association":
         envs = envs + rounding_envs()
@@ -846,12 +882,14 @@ def run(tier):
             for st, fs in pool.imap_unordered(_tree_worker, [(s, procs, depth, stride, seed) for s in range(procs)]):
                 for k in ("trees", "queries", "solver_s", "rejected_by_backend"):
                     agg[k] += st[k]
+                agg["modules_accepted_by_llvm_verifier"] = agg.get("modules_accepted_by_llvm_verifier", 0) + st.get("modules_verified", 0)
                 for k, v in st["by_kind"].items():
                     agg["by_kind"][k] = agg["by_kind"].get(k, 0) + v
                 findings += [dict(f, depth=depth) for f in fs]
             agg["solver_s"] = round(agg["solver_s"], 2)
             agg["stride"] = stride
             tree_stats[str(depth)] = agg
+        phase = {"trees_s": round(time.time() - t0, 1)}
         # ---- 1b statements
         stmt_stats = {"programs": 0, "paths": 0, "rejected": 0}
         stmt_bad = []
@@ -916,11 +954,13 @@ def run(tier):
                           {"property": "C06", "part": "1-statement-trees", **b})
         else:
             rep.harness_error(f"statement counterexample did not reproduce on the real back ends: {b['statement'][:160]} {rp}")
+    phase["statements_and_replays_s"] = round(time.time() - t0 - phase["trees_s"], 1)
+    t_k = time.time()
     # ---- 2 kernels
     reqs = corpus.quick_requests()
     if tier == "quick":
-        # the back ends see statements, not expression shapes: a sixth of the expression sweep is enough here
-        reqs = corpus.quick_requests(expressions=False)[::3] + corpus.expression_sweep_requests()[::6]
+        # the back ends see statements, not expression shapes: a fifth of the <= 3-operand expression sweep is enough here
+        reqs = corpus.quick_requests(expressions=False)[::3] + corpus.expression_sweep_requests(four_leaves=False)[::5]
     else:
         reqs = corpus.thorough_requests(seed, per_shape=6, per_shape3=3)
     reqs = reqs + [Request.make(a, f) for a, f in KERNEL_REQUESTS_EXTRA]
@@ -935,8 +975,26 @@ def run(tier):
     ksamples = []
     kviol = 0
     structural_only = []
+    structural_not_replayed = {}
     kernel_over_budget = []
-    for r in results:
+
+    def _vals_differ(r):
+        label = r["violation"]["label"]
+        return r["violation"]["kind"] == "mismatch" and isinstance(label, list) and "vals differ" in label
+
+    def _tkey(r):
+        return (r["request"]["assignment"], tuple(sorted(r["request"]["formats"].items())), tuple(sorted(r["dimvec"].items())),
+                r.get("program"))
+
+    # a structural (uninterpreted fadd/fmul) difference: is it also a difference over the reals?  Decided for
+    # *every* such counterexample (in parallel) with the exact rational algebra, so that a real value difference
+    # cannot hide among rounding-only candidates.
+    exact_tasks = [{"assignment": r["request"]["assignment"], "formats": r["request"]["formats"], "dimvec": r["dimvec"],
+                    "N": r["N"], "mode": "c06", "program": r.get("program"), "falg": "pw", "max_paths": 8000, "time_budget": 400}
+                   for r in results if r["status"] == "violation" and _vals_differ(r)]
+    exact_by_key = {_tkey(x): x for x in ksweep.run_tasks(exact_tasks, worker=kprog.run_task, wall_budget=wall_budget)} if exact_tasks else {}
+    n_structural_replayed = {}
+    for r in sorted(results, key=lambda r: r.get("wall_s", 0)):
         key = r["request"]["assignment"] + " | " + ",".join(f"{k}:{v}" for k, v in r["request"]["formats"].items())
         for k in kagg:
             kagg[k] += r.get("stats", {}).get(k, 0)
@@ -953,49 +1011,59 @@ def run(tier):
                 kernel_over_budget.append(key)
         elif r["status"] == "violation":
             kviol += 1
-            if kviol > keval.MAX_CONFIRM:
-                continue
             comp = compile_request(Request.make(r["request"]["assignment"], r["request"]["formats"]), kinds=kprog.KINDS3)
             label = r["violation"]["label"]
             backend = (r["violation"].get("detail") or {}).get("backend") or (label[0] if isinstance(label, list) and label and label[0] in ("c", "llvm") else None)
             kind = r["violation"]["kind"]
-            if kind == "mismatch" and backend == "c" and isinstance(label, list) and "vals differ" in label and \
-                    any(kernel_has_right_nested(fn) for fn in comp.functions.values()):
+            if _vals_differ(r) and backend == "c" and any(kernel_has_right_nested(fn) for fn in comp.functions.values()):
                 kind = "c-printer-right-nested-rounding"
-            # a structural (uninterpreted fadd/fmul) difference: is it also a difference over the reals?
-            exact = None
-            if kind in ("mismatch", "c-printer-right-nested-rounding") and isinstance(label, list) and "vals differ" in label:
-                t2 = {"assignment": r["request"]["assignment"], "formats": r["request"]["formats"], "dimvec": r["dimvec"],
-                      "N": r["N"], "mode": "c06", "program": r.get("program"), "falg": "pw", "max_paths": 8000, "time_budget": 400}
-                exact = kprog.run_task(t2)
-                if exact["status"] == "violation":
-                    # exact rational values differ: replay the solver's own inputs
-                    from . import keval as _keval
-
-                    conf = confirm_kernel_values(exact)
-                    disagreements_checked += 1
-                    doc = {"property": "C06", "part": "2-kernels", "request": r["request"], "dimvec": r["dimvec"],
-                           "program": r.get("program"), "violation": exact["violation"], "classified": "meaning-differs",
-                           "confirmation": conf}
-                    if conf["confirmed"]:
-                        rep.violation({"name": key, "kind": "kernel-meaning-differs", "backend": backend, "request": key}, doc)
-                    else:
-                        rep.harness_error(f"kernel value counterexample did not reproduce on the real back ends: {key}")
+            exact = exact_by_key.get(_tkey(r)) if _vals_differ(r) else None
+            if exact is not None and exact["status"] in ("harness-error", "budget"):
+                if tier == "quick":
+                    rep.harness_error(f"{key}: exact-value stage {exact['status']} {exact.get('error', '')[:200]}")
+                else:
+                    kernel_over_budget.append(key)
+                continue
+            if exact is not None and exact["status"] == "violation":
+                # exact rational values differ: replay the solver's own inputs
+                if len(rep.violations) >= keval.MAX_CONFIRM:
                     continue
+                conf = confirm_kernel_values(exact)
+                disagreements_checked += 1
+                doc = {"property": "C06", "part": "2-kernels", "request": r["request"], "dimvec": r["dimvec"],
+                       "program": r.get("program"), "violation": exact["violation"], "classified": "meaning-differs",
+                       "confirmation": conf}
+                if conf["confirmed"]:
+                    rep.violation({"name": key, "kind": "kernel-meaning-differs", "backend": backend, "request": key}, doc)
+                else:
+                    rep.harness_error(f"kernel value counterexample did not reproduce on the real back ends: {key}")
+                continue
+            structural = _vals_differ(r) and (exact is None or exact["status"] == "ok")
+            if structural:
+                # same values over the rationals: replay a few per kind on the real back ends (rounding inputs)
+                ck = (kind, backend)
+                n_structural_replayed[ck] = n_structural_replayed.get(ck, 0) + 1
+                if n_structural_replayed[ck] > 4:
+                    structural_not_replayed[str(ck)] = structural_not_replayed.get(str(ck), 0) + 1
+                    continue
+            elif kviol > 3 * keval.MAX_CONFIRM:
+                continue
             conf = confirm_kernel(r, None)
             disagreements_checked += 1
             doc = {"property": "C06", "part": "2-kernels", "request": r["request"], "dimvec": r["dimvec"],
                    "program": r.get("program"), "violation": r["violation"], "classified": kind, "confirmation": conf}
             if conf["confirmed"]:
                 rep.violation({"name": key, "kind": kind, "backend": backend, "request": key}, doc)
-            elif kind == "c-printer-right-nested-rounding" or (exact is not None and exact["status"] == "ok"):
+            elif structural:
                 # same values over the rationals and no bit difference observed on the real back ends:
-                # a structural candidate only (e.g. x - y printed for x + -1 * y), recorded, not a violation
+                # a structural candidate only, recorded, not a violation
                 structural_only.append({"request": key, "program": r.get("program")})
             else:
                 rep.harness_error(f"kernel counterexample did not reproduce on the real back ends: {key} {r['violation']['label']}")
         elif len(ksamples) < 4 and r["stats"].get("paths", 0) > 1:
             ksamples.append({"request": r["request"], "program": r.get("program"), "paths": r["stats"]["paths"]})
+    phase["kernels_s"] = round(time.time() - t_k, 1)
+    t_k = time.time()
     # ---- 3 tool chain
     tc_checked = 0
     for req in reqs:
@@ -1018,6 +1086,7 @@ def run(tier):
     if ident["user_names_can_contain_underscore"] != "unsat" or not ident["generated_names_all_contain_underscore"]:
         rep.violation({"name": "identifier templates", "kind": "generated-names-may-collide"},
                       {"property": "C06", "part": 4, **ident})
+    phase["toolchain_identifiers_s"] = round(time.time() - t_k, 1)
     if not tree_stats.get("1", {}).get("trees") or not generated:
         rep.harness_error("vacuous run")
     n_trees = sum(v["trees"] for v in tree_stats.values())
@@ -1029,8 +1098,10 @@ def run(tier):
         "kernels": {"requests": len(reqs), "generated": len(generated), "refused": refused, **kagg,
                     "solver_s": round(kagg["solver_s"], 2), "solver_counterexamples": kviol,
                     "tasks": len(tasks), "tasks_completed": len(results), "over_budget": kernel_over_budget[:40], "structural_candidates_without_observed_bit_difference": structural_only[:40],
+                    "structural_candidates_decided_exact_equal_not_replayed": structural_not_replayed,
+                    "exact_value_stage_tasks": len(exact_tasks),
                     "bounds": {"dense_dimension_max": D, "stored_entries_per_compressed_level": N}},
-        "toolchain_checked": tc_checked, "identifier_obligations": ident,
+        "toolchain_checked": tc_checked, "identifier_obligations": ident, "phase_wall_s": phase,
         "unconfirmed_overflow_only_candidates": unconfirmed_overflow_only,
         "known_findings_met": [k["id"] for k in rep.known],
         "functions_encoded": ["tensora.codegen.ir_to_c (text parsed by pycparser after gcc -E with the real headers)",
